@@ -94,7 +94,7 @@ def replay(pid, path, seed):
             sb.write("x", b"not a kestrel file")
             streams = rp["observed"].get("streams", "normal")
             faulty = streams != "normal"
-            r = cli.kestrel(v, env={"KESTREL_PASSWORD": "pw9", "KESTREL_NEW_PASSWORD": "pw10"} if faulty else {}, stdin=b"streamkey\n" if faulty else b"",
+            r = cli.kestrel([b"caf\xe9.ktl" if a == "<NONUTF8>" else a for a in v], env={"KESTREL_PASSWORD": "pw9", "KESTREL_NEW_PASSWORD": "pw10"} if faulty else {}, stdin=b"streamkey\n" if faulty else b"",
                             timeout=30, cwd=sb.dir, stdout_path="/dev/full" if streams == "stdout_full" else None,
                             stderr_path="/dev/full" if streams == "stderr_full" else None)
         ev = {"ev": "argv", "id": "replay", "argv": v, "streams": streams, "exit": r.rc, "errline": r.has_error_line, "timed_out": r.timed_out, "stderr": r.err_text[-200:]}
